@@ -332,7 +332,21 @@ func (fx *FuncExec) builtin(st *State, reach *Term, name string, args []Value, c
 			}
 		}
 		return reach, VInt{r}
-	case "delete", "close", "print", "println", "clear":
+	case "clear":
+		if s, ok := args[0].(VSlice); ok && intRepresentable(s.elem) {
+			hk := elemHeapKey(s.elem)
+			h := fx.heapGet(st, hk, SArr2)
+			old := ts.Select(h, s.arr)
+			nw := ts.Fresh("clr", SArr)
+			j := ts.Bound("j", SInt)
+			in := ts.And(ts.Le(s.off, j), ts.Lt(j, ts.Add(s.off, s.len)))
+			fx.addFact(reach, ts.Forall([]*Term{j}, ts.Eq(ts.Select(nw, j), ts.Ite(in, ts.Int(0), ts.Select(old, j))), ts.Select(nw, j)))
+			fx.heapSet(st, hk, ts.Store(h, s.arr, nw))
+			return reach, VTuple{nil}
+		}
+		fx.note("builtin clear on a map or untracked slice is a no-op in the model")
+		return reach, VTuple{nil}
+	case "delete", "close", "print", "println":
 		fx.note("builtin " + name + " is a no-op in the model")
 		return reach, VTuple{nil}
 	case "recover":
@@ -382,7 +396,7 @@ func (fx *FuncExec) doAppend(st *State, reach *Term, args []Value, src string) (
 	fcap := ts.Fresh("cap", SInt)
 	ts.SetRange(fcap, bigZero, big2p40)
 	fx.addFact(reach, ts.And(ts.Le(newLen, fcap), ts.Le(fcap, ts.BigInt(big2p40)), ts.Le(ts.Int(0), fcap)))
-	fx.addObl("safe", "appendlen", src, reach, ts.Le(newLen, ts.BigInt(big2p40)))
+	fx.addFact(reach, ts.Le(newLen, ts.BigInt(big2p40))) // size assumption: no slice outgrows 2^40 elements
 	res := mkSlice(ts.Ite(inplace, s.arr, fresh), ts.Ite(inplace, s.off, ts.Int(0)), newLen, ts.Ite(inplace, s.cap, fcap), s.elem)
 	if !intRepresentable(s.elem) {
 		fx.note("append on slices of " + typeKey(s.elem) + ": contents not tracked")
@@ -394,9 +408,8 @@ func (fx *FuncExec) doAppend(st *State, reach *Term, args []Value, src string) (
 	// base array: in place -> old backing array; fresh -> copy of the prefix
 	fcopy := ts.Fresh("appcopy", SArr)
 	i := ts.Bound("i", SInt)
-	fx.addFact(ts.And(reach, ts.Not(inplace)), ts.Forall([]*Term{i},
-		ts.Implies(ts.And(ts.Le(ts.Int(0), i), ts.Lt(i, s.len)), ts.Eq(ts.Select(fcopy, i), ts.Select(oldS, ts.Add(s.off, i)))),
-		ts.Select(fcopy, i)))
+	fx.addFact(ts.And(reach, ts.Not(inplace)), ts.QuantIdx(true, i, ts.And(ts.Le(ts.Int(0), i), ts.Lt(i, s.len)),
+		ts.Eq(ts.Select(fcopy, i), ts.Select(oldS, ts.Add(s.off, i)))))
 	base := ts.Ite(inplace, oldS, fcopy)
 	start := ts.Add(res.off, s.len)
 	var newArr *Term
@@ -416,15 +429,13 @@ func (fx *FuncExec) doAppend(st *State, reach *Term, args []Value, src string) (
 		if srcIsSlice {
 			oldT := ts.Select(h, tsl.arr)
 			k := ts.Bound("k", SInt)
-			fx.addFact(reach, ts.Forall([]*Term{k},
-				ts.Implies(ts.And(ts.Le(ts.Int(0), k), ts.Lt(k, tl)), ts.Eq(ts.Select(newArr, ts.Add(start, k)), ts.Select(oldT, ts.Add(tsl.off, k)))),
-				ts.Select(newArr, ts.Add(start, k))))
+			fx.addFact(reach, ts.QuantIdx(true, k, ts.And(ts.Le(ts.Int(0), k), ts.Lt(k, tl)),
+				ts.Eq(ts.Select(newArr, ts.Add(start, k)), ts.Select(oldT, ts.Add(tsl.off, k)))))
 		} else {
 			fx.note("append of a string: appended bytes are arbitrary")
 			k := ts.Bound("k", SInt)
-			fx.addFact(reach, ts.Forall([]*Term{k},
-				ts.Implies(ts.And(ts.Le(ts.Int(0), k), ts.Lt(k, tl)), ts.And(ts.Le(ts.Int(0), ts.Select(newArr, ts.Add(start, k))), ts.Le(ts.Select(newArr, ts.Add(start, k)), ts.Int(255)))),
-				ts.Select(newArr, ts.Add(start, k))))
+			fx.addFact(reach, ts.QuantIdx(true, k, ts.And(ts.Le(ts.Int(0), k), ts.Lt(k, tl)),
+				ts.And(ts.Le(ts.Int(0), ts.Select(newArr, ts.Add(start, k))), ts.Le(ts.Select(newArr, ts.Add(start, k)), ts.Int(255)))))
 		}
 	}
 	fx.heapSet(st, hk, ts.Store(h, res.arr, newArr))
@@ -475,9 +486,8 @@ func (fx *FuncExec) doCopy(st *State, reach *Term, args []Value, src string) (*T
 		if isSlice {
 			oldS := ts.Select(h, s.arr)
 			k := ts.Bound("k", SInt)
-			fx.addFact(reach, ts.Forall([]*Term{k},
-				ts.Implies(ts.And(ts.Le(ts.Int(0), k), ts.Lt(k, n)), ts.Eq(ts.Select(newArr, ts.Add(d.off, k)), ts.Select(oldS, ts.Add(s.off, k)))),
-				ts.Select(newArr, ts.Add(d.off, k))))
+			fx.addFact(reach, ts.QuantIdx(true, k, ts.And(ts.Le(ts.Int(0), k), ts.Lt(k, n)),
+				ts.Eq(ts.Select(newArr, ts.Add(d.off, k)), ts.Select(oldS, ts.Add(s.off, k)))))
 		}
 	}
 	fx.heapSet(st, hk, ts.Store(h, d.arr, newArr))
